@@ -442,3 +442,214 @@ Proof.
       intros c v rc _ E. exact (proj2 (proj2 (proj2 (IH _ _ _ _ _ _ E))) Hf).
   - injection H as <-. apply Hleafcase; try discriminate; reflexivity.
 Qed.
+
+(** ** The statements of the items: only labelled nodes, edges, assignments, subgraphs; and a
+    node name determines its label *)
+From CG Require Import Proofs.DotSemLabels.
+
+Definition ctx_ok (pool : rpool) (r0 : regex) (p : string) (r : regex) : Prop :=
+  (p = "" /\ r = r0) \/ exists rid, p = sub_pre rid /\ assocN rid pool = Some r.
+
+Definition lab_rel (pool : rpool) (r0 : regex) (pr : string * string) : Prop :=
+  exists p r m, ctx_ok pool r0 p r /\ fst pr = node_id p m /\ snd pr = qdec (node_body r m).
+
+Lemma ctx_prefix pool r0 p r : ctx_ok pool r0 p r -> prefix_ok p.
+Proof. intros [[-> _]|[rid [-> _]]]; constructor. Qed.
+
+Lemma lab_rel_fun pool r0 i L L' : lab_rel pool r0 (i, L) -> lab_rel pool r0 (i, L') -> L = L'.
+Proof.
+  intros [p [r [m [Hc [Hi Hl]]]]] [p' [r' [m' [Hc' [Hi' Hl']]]]]. cbn [fst snd] in *.
+  rewrite Hi in Hi'. destruct (node_id_inj _ _ _ _ (ctx_prefix _ _ _ _ Hc) (ctx_prefix _ _ _ _ Hc') Hi') as [Ep Em].
+  subst p' m'. assert (r = r').
+  { destruct Hc as [[E1 ->]|[rid [E1 A1]]], Hc' as [[E2 ->]|[rid' [E2 A2]]].
+    - reflexivity.
+    - rewrite E1 in E2. symmetry in E2. now elim (sub_pre_not_main rid').
+    - rewrite E2 in E1. symmetry in E1. now elim (sub_pre_not_main rid).
+    - rewrite E1 in E2. apply sub_pre_inj in E2. subst rid'. rewrite A1 in A2. now injection A2. }
+  subst r'. now rewrite Hl, Hl'.
+Qed.
+
+Lemma block_head_stmts rid inner :
+  flat_map item_stmts (block_head rid ++ inner)
+  = (SAssign "label" (qdec ("SUBWORD " ++ dec rid)) :: SAssign "color" "grey91" :: SAssign "style" "filled"
+     :: items_stmts inner)%list.
+Proof. reflexivity. Qed.
+
+Lemma rx_item_stmts pool r0 : forall it r p, rx_item pool r p it -> ctx_ok pool r0 p r ->
+  Forall simple (item_stmts it) /\ forall pr, In pr (stated_all (item_stmts it)) -> lab_rel pool r0 pr.
+Proof.
+  induction it as [l|name body IH] using item_ind2; intros r p H Hc.
+  - inversion H; subst; cbn [item_stmts line_stmts stated_all flat_map stated app].
+    + split; [repeat constructor|]. intros pr [<-|[]]. exists p, r, m. now repeat split.
+    + split; [repeat constructor|]. intros pr [].
+  - inversion H as [| |r' p' rid sr inner Ea Hin]; subst.
+    change (Forall simple [SSub (Some ("cluster_" ++ dec rid))
+                                (SAssign "label" (qdec ("SUBWORD " ++ dec rid)) :: SAssign "color" "grey91"
+                                 :: SAssign "style" "filled" :: items_stmts inner)]
+            /\ forall pr, In pr (stated_all [SSub (Some ("cluster_" ++ dec rid))
+                                               (SAssign "label" (qdec ("SUBWORD " ++ dec rid)) :: SAssign "color" "grey91"
+                                                :: SAssign "style" "filled" :: items_stmts inner)]) ->
+                           lab_rel pool r0 pr).
+    apply (proj1 (Forall_app _ (block_head rid) inner)) in IH. destruct IH as [_ IH].
+    assert (Hctx : ctx_ok pool r0 (sub_pre rid) sr) by (right; now exists rid).
+    assert (Hall : Forall simple (items_stmts inner)
+                   /\ forall pr, In pr (stated_all (items_stmts inner)) -> lab_rel pool r0 pr).
+    { clear H. induction inner as [|x rest IHr]; [split; [constructor|intros ? []]|].
+      inversion IH as [|? ? Hx Hr]; subst. inversion Hin as [|? ? Hx' Hr']; subst.
+      destruct (Hx sr (sub_pre rid) Hx' Hctx) as [A B]. destruct (IHr Hr Hr') as [A' B'].
+      cbn [items_stmts flat_map]. split; [apply Forall_app; now split|].
+      intros pr Hpr. unfold stated_all in Hpr. rewrite flat_map_app in Hpr. apply in_app_or in Hpr as [Hpr|Hpr];
+        [now apply B|now apply B']. }
+    destruct Hall as [A B]. split.
+    + constructor; [|constructor]. constructor. repeat (constructor; [constructor|]). exact A.
+    + intros pr Hpr. cbn [stated_all flat_map stated app] in Hpr. rewrite app_nil_r in Hpr. exact (B pr Hpr).
+Qed.
+
+Lemma rx_items_stmts pool r0 l p r :
+  Forall (rx_item pool r p) l -> ctx_ok pool r0 p r ->
+  Forall simple (items_stmts l) /\ forall pr, In pr (stated_all (items_stmts l)) -> lab_rel pool r0 pr.
+Proof.
+  intros H Hc. induction H as [|x rest Hx Hr IH]; [split; [constructor|intros ? []]|].
+  destruct (rx_item_stmts pool r0 x r p Hx Hc) as [A B]. destruct IH as [A' B'].
+  cbn [items_stmts flat_map]. split; [apply Forall_app; now split|].
+  intros pr Hpr. unfold stated_all in Hpr. rewrite flat_map_app in Hpr. apply in_app_or in Hpr as [Hpr|Hpr];
+    [now apply B|now apply B'].
+Qed.
+
+(** ** The theorem for the --regex file *)
+Definition leaf_for (inp : rinput) (pos : N) : rnode :=
+  match inp with
+  | RLit _ _ => RTerm pos
+  | RNonterm _ => RNt pos
+  | RCmd _ => RCommand pos
+  | RSub _ => RSubword pos
+  end.
+
+(** every position has its leaf, reachable from the root without passing a [Star] *)
+Definition rx_cover (r : regex) : Prop :=
+  forall pos inp, nthN (r_inputs r) pos = Some inp ->
+                  exists m, reach_from r (r_root r) m /\ nthN (r_nodes r) m = Some (leaf_for inp pos).
+
+Definition spec_items (r : regex) : list ritem := map ritem_of (r_inputs r).
+Definition spec_pool (pool : rpool) : list (N * list ritem) := map (fun q => (fst q, spec_items (snd q))) pool.
+
+Lemma labels_from_in its : forall n l,
+  In l (labels_from n its) -> exists k it, nth_error its k = Some it /\ l = item_label (n + N.of_nat k) it.
+Proof.
+  induction its as [|x r IH]; intros n l H; [destruct H|]. cbn [labels_from] in H. destruct H as [<-|H].
+  - exists 0%nat, x. split; [reflexivity|]. now rewrite N.add_0_r.
+  - destruct (IH _ _ H) as [k [it [E1 E2]]]. exists (S k), it. split; [exact E1|]. rewrite E2. f_equal. lia.
+Qed.
+
+Lemma spec_items_nth r k it :
+  nth_error (spec_items r) k = Some it ->
+  exists inp, nthN (r_inputs r) (N.of_nat k) = Some inp /\ it = ritem_of inp.
+Proof.
+  unfold spec_items, nthN. rewrite Nat2N.id. intro H.
+  destruct (nth_error (r_inputs r) k) as [inp|] eqn:E.
+  - rewrite (map_nth_error ritem_of _ _ E) in H. injection H as <-. now exists inp.
+  - apply nth_error_None in E. assert (Hn : nth_error (map ritem_of (r_inputs r)) k = None)
+      by (apply nth_error_None; now rewrite map_length). congruence.
+Qed.
+
+Lemma spec_pool_assoc pool rid its :
+  assocN rid (spec_pool pool) = Some its -> exists sr, assocN rid pool = Some sr /\ its = spec_items sr.
+Proof.
+  unfold spec_pool. induction pool as [|[k sr] rest IH]; [discriminate|]. cbn [map assocN fst snd].
+  destruct (rid =? k)%N; [intro H; injection H as <-; now exists sr|exact IH].
+Qed.
+
+Lemma node_body_leaf r m pos inp :
+  nthN (r_nodes r) m = Some (leaf_for inp pos) -> nthN (r_inputs r) pos = Some inp ->
+  node_body r m = leaf_body pos inp.
+Proof. intros E1 E2. unfold node_body. rewrite E1. destruct inp; cbn [leaf_for]; now rewrite E2. Qed.
+
+Lemma stated_of_line i b l : In (ILine (LNode i b)) l -> In (i, qdec b) (stated_all (items_stmts l)).
+Proof.
+  intro H. unfold stated_all, items_stmts. apply in_flat_map. exists (SNode i [("label", qdec b)]). split.
+  - apply in_flat_map. exists (ILine (LNode i b)). split; [exact H|now left].
+  - now left.
+Qed.
+
+Lemma stmt_of_block name b l : In (IBlock name b) l -> In (SSub (Some name) (items_stmts b)) (items_stmts l).
+Proof. intro H. unfold items_stmts. apply in_flat_map. exists (IBlock name b). split; [exact H|now left]. Qed.
+
+Lemma stated_sub_incl name body l pr :
+  In (SSub name body) l -> In pr (stated_all body) -> In pr (stated_all l).
+Proof. intros H Hp. unfold stated_all. apply in_flat_map. exists (SSub name body). split; [exact H|exact Hp]. Qed.
+
+Lemma sub_rids_in l rid : In rid (sub_rids l) -> In (XSub rid) l.
+Proof.
+  unfold sub_rids. rewrite dedup_in, in_flat_map. intros [x [Hx Hr]]. destruct x; try destruct Hr.
+  - subst. exact Hx.
+  - destruct H.
+Qed.
+
+Lemma graph_directed a : g_directed (graph_of_ast a) = a_directed a.
+Proof. unfold graph_of_ast. destruct (run_stmts (a_body a) _). reflexivity. Qed.
+
+Theorem regex_dot_patched pool r text :
+  pool_flat pool -> of_regex_with patched pool r = Ok text ->
+  exists g, read text = Some g
+            /\ (rx_cover r -> (forall rid sr, assocN rid pool = Some sr -> rx_cover sr) ->
+                regex_ok g (spec_pool pool) (spec_items r)).
+Proof.
+  intros Hpf H. unfold of_regex_with, regex_items in H.
+  destruct (rx_items (rx_fuel pool r) patched pool r (r_root r) None "" []) as [[items vis]| | |] eqn:Er; try discriminate.
+  cbn [obind fst] in H. injection H as <-.
+  pose proof (rx_items_inv pool _ _ _ _ _ _ _ pre_main (fun pid E => False_ind _ (eq_ind None (fun o => match o with None => True | Some _ => False end) I _ E)) Er) as Hinv.
+  cbn [fst] in Hinv.
+  assert (Hok : Forall item_ok items).
+  { rewrite Forall_forall in *. intros x Hx. exact (rx_item_ok pool x r "" (Hinv x Hx) pre_main). }
+  eexists. split; [apply (read_render_doc "rx" items); [split; reflexivity|exact Hok]|].
+  intros Hcov Hcovs.
+  destruct (rx_items_stmts pool r items "" r Hinv (or_introl (conj eq_refl eq_refl))) as [Hsimple Hrel].
+  destruct (labels_kept (items_stmts items) false (Some "rx") Hsimple) as [K1 K2].
+  { intros i L L' H1 H2. exact (lab_rel_fun pool r i L L' (Hrel _ H1) (Hrel _ H2)). }
+  cbn zeta in K1, K2.
+  destruct (rx_items_facts pool Hpf _ _ _ _ _ _ _ Er) as [_ [FB [FC _]]]. cbn [fst snd] in FB, FC.
+  split; [apply graph_directed|].
+  intros w Hw. unfold expected_labels in Hw. apply in_app_or in Hw as [Hw|Hw].
+  - (* a position of the regex itself *)
+    apply in_map_iff in Hw as [l [<- Hl]].
+    destruct (labels_from_in _ _ _ Hl) as [k [it [E1 ->]]]. rewrite N.add_0_l.
+    destruct (spec_items_nth r k it E1) as [inp [Ei ->]].
+    destruct (Hcov _ _ Ei) as [m [Hreach Hnode]].
+    destruct (FB m Hreach) as [Hline _]. unfold node_line in Hline.
+    rewrite (node_body_leaf r m _ inp Hnode Ei) in Hline.
+    destruct (leaf_body_decodes (N.of_nat k) inp) as [v [Ed Ev]].
+    destruct (K1 _ _ (stated_of_line _ _ _ Hline)) as [n [Hn [Hid Hlab]]].
+    unfold labels_node. apply existsb_exists. exists n. split; [exact Hn|].
+    unfold rendered. rewrite Hlab. unfold qdec. rewrite Ed. cbn [option_map option_eqb]. rewrite Ev.
+    rewrite String.eqb_refl. reflexivity.
+  - (* a position of a within-word regex *)
+    apply in_flat_map in Hw as [rid [Hrid Hw]].
+    destruct (assocN rid (spec_pool pool)) as [its|] eqn:Ea; [|destruct Hw].
+    destruct (spec_pool_assoc pool rid its Ea) as [sr [Esr ->]].
+    apply in_map_iff in Hw as [l [<- Hl]].
+    destruct (labels_from_in _ _ _ Hl) as [k [it [E1 ->]]]. rewrite N.add_0_l.
+    destruct (spec_items_nth sr k it E1) as [inp [Ei ->]].
+    (* the within-word regex is met: its cluster was written *)
+    apply sub_rids_in in Hrid. unfold spec_items in Hrid. apply in_map_iff in Hrid as [inp0 [E0 Hin0]].
+    destruct inp0 as [| | |rid0]; try discriminate E0. injection E0 as ->.
+    apply In_nth_error in Hin0 as [k0 Hk0].
+    assert (Ei0 : nthN (r_inputs r) (N.of_nat k0) = Some (RSub rid)) by (unfold nthN; now rewrite Nat2N.id).
+    destruct (Hcov _ _ Ei0) as [m0 [Hreach0 Hnode0]]. cbn [leaf_for] in Hnode0.
+    destruct (FB m0 Hreach0) as [_ Hvis]. specialize (Hvis _ _ Hnode0 Ei0).
+    destruct (FC rid Hvis) as [[]|[sr' [inner [f' [v0 [v1 [Esr' [Hblock Hrun]]]]]]]].
+    rewrite Esr in Esr'. injection Esr' as <-.
+    destruct (rx_items_facts pool Hpf _ _ _ _ _ _ _ Hrun) as [_ [FB' _]]. cbn [fst] in FB'.
+    destruct (Hcovs rid sr Esr _ _ Ei) as [m [Hreach Hnode]].
+    destruct (FB' m Hreach) as [Hline _]. unfold node_line in Hline.
+    rewrite (node_body_leaf sr m _ inp Hnode Ei) in Hline.
+    destruct (leaf_body_decodes (N.of_nat k) inp) as [v [Ed Ev]].
+    unfold block_of in Hblock. apply stmt_of_block in Hblock.
+    assert (Hin_body : In (node_id (sub_pre rid) m, qdec (leaf_body (N.of_nat k) inp))
+                          (stated_all (items_stmts (block_head rid ++ inner)))).
+    { apply stated_of_line. apply in_or_app. now right. }
+    destruct (K1 _ _ (stated_sub_incl _ _ _ _ Hblock Hin_body)) as [n [Hn [Hid Hlab]]].
+    pose proof (K2 _ _ _ _ Hblock Hin_body) as Hcl.
+    unfold labels_node. apply existsb_exists. exists n. split; [exact Hn|].
+    unfold rendered. rewrite Hlab. unfold qdec. rewrite Ed. cbn [option_map option_eqb]. rewrite Ev.
+    rewrite String.eqb_refl, Hid. cbn [andb]. exact Hcl.
+Qed.
